@@ -6,12 +6,15 @@ import (
 	"fmt"
 	"strings"
 
+	cosmos_proto "github.com/cosmos/cosmos-proto"
 	"github.com/cosmos/cosmos-proto/anyutil"
 	"github.com/cosmos/cosmos-proto/internal/verifh/vschema"
 	"github.com/cosmos/cosmos-proto/internal/verifh/vval"
 	"google.golang.org/protobuf/proto"
+	"google.golang.org/protobuf/reflect/protodesc"
 	"google.golang.org/protobuf/reflect/protoreflect"
 	"google.golang.org/protobuf/reflect/protoregistry"
+	"google.golang.org/protobuf/types/descriptorpb"
 	"google.golang.org/protobuf/types/dynamicpb"
 	"google.golang.org/protobuf/types/known/anypb"
 )
@@ -310,7 +313,76 @@ func runAnyutil(cfg *Cfg) {
 			}
 		}
 	}
+	extensionPass(out)
 	out.Sample("anyunpack x" + hex.EncodeToString([]byte(urls[0])) + " m:… nf ok")
+}
+
+// extensionPass: messages of another generator (descriptor.proto options) carrying EXTENSION fields, packed and
+// unpacked under every resolver configuration. How the payload is decoded must not depend on the resolver that is
+// only there to find the message TYPE: the result must equal what proto.Unmarshal gives for the same bytes
+// (extension known to the global registry: a populated extension field, never unknown bytes), on the type-registry
+// path and on the file-registry + dynamicpb path, and the two paths must agree.
+func extensionPass(out *Out) {
+	fo := &descriptorpb.FieldOptions{Deprecated: proto.Bool(true)}
+	proto.SetExtension(fo, cosmos_proto.E_Scalar, "cosmos.Int")
+	proto.SetExtension(fo, cosmos_proto.E_AcceptsInterface, "cosmos.Msg")
+	mo := &descriptorpb.MessageOptions{}
+	proto.SetExtension(mo, cosmos_proto.E_ImplementsInterface, []string{"a.B", "c.D"})
+	fl := &descriptorpb.FileOptions{GoPackage: proto.String("x/y")}
+	proto.SetExtension(fl, cosmos_proto.E_DeclareScalar, []*cosmos_proto.ScalarDescriptor{{Name: "cosmos.Int", Description: "d"}})
+	onlyMsgs := new(protoregistry.Types) // a registry that knows the message types but no extension
+	for _, m := range []proto.Message{fo, mo, fl} {
+		_ = onlyMsgs.RegisterMessage(m.ProtoReflect().Type())
+	}
+	type cfgT struct {
+		name  string
+		files protodesc.Resolver
+		types protoregistry.MessageTypeResolver
+	}
+	cfgs := []cfgT{
+		{"default", nil, nil},
+		{"global-files+empty-types", nil, new(protoregistry.Types)},
+		{"global-files+global-types", protoregistry.GlobalFiles, protoregistry.GlobalTypes},
+		{"global-files+types-without-extensions", protoregistry.GlobalFiles, onlyMsgs},
+	}
+	for _, src := range []proto.Message{fo, mo, fl} {
+		any, err := anyutil.New(src)
+		full := string(src.ProtoReflect().Descriptor().FullName())
+		if err != nil {
+			out.Violate("C16", "pack-error", "New failed for "+full+": "+err.Error(), "anyext "+full)
+			continue
+		}
+		want, _ := proto.MarshalOptions{Deterministic: true}.Marshal(src)
+		var results []string
+		for _, c := range cfgs {
+			var got proto.Message
+			var uerr error
+			replay := "anyext " + full + " resolvers=" + c.name + " value x" + hex.EncodeToString(any.Value)
+			out.Case("anyext"+full+c.name, true)
+			out.Count("extension_cases")
+			if p, pm := guard(func() { got, uerr = anyutil.Unpack(any, c.files, c.types) }); p {
+				out.Violate("C16", "unpack-panic", "Unpack panicked: "+firstLine(pm), replay)
+				continue
+			}
+			if uerr != nil {
+				out.Violate("C16", "unpack-roundtrip-error", "Unpack of a packed "+full+" failed: "+uerr.Error(), replay)
+				continue
+			}
+			if !proto.Equal(got, src) {
+				out.Violate("C16", "unpack-roundtrip", fmt.Sprintf("unpacked message differs from the packed one (unknown bytes after unpacking: %x)", []byte(got.ProtoReflect().GetUnknown())), replay)
+			}
+			gb, _ := proto.MarshalOptions{Deterministic: true}.Marshal(got)
+			if !bytes.Equal(gb, want) {
+				out.Violate("C16", "unpack-roundtrip", fmt.Sprintf("re-encoding of the unpacked message %x differs from the packed value %x", gb, want), replay)
+			}
+			results = append(results, fmt.Sprintf("%x|unknown=%x", gb, []byte(got.ProtoReflect().GetUnknown())))
+		}
+		for i := 1; i < len(results); i++ {
+			if results[i] != results[0] {
+				out.Violate("C16", "paths-disagree", fmt.Sprintf("resolver configuration %s gives %s, %s gives %s", cfgs[0].name, results[0], cfgs[i].name, results[i]), "anyext "+full)
+			}
+		}
+	}
 }
 
 func scriptAns(a string) string {
